@@ -10,8 +10,8 @@ use rand::Rng;
 use serde_json::json;
 use std::collections::BTreeMap;
 
-#[derive(Clone, Debug)]
-struct XE { name: String, kind: u8, content: Vec<u8> }
+#[derive(Clone, Debug, Default)]
+struct XE { name: String, kind: u8, content: Vec<u8>, perm: Option<u16> }
 
 fn build(es: &[XE]) -> Vec<u8> {
     let mut a = Archive::write_header(Vec::new()).unwrap();
@@ -20,7 +20,7 @@ fn build(es: &[XE]) -> Vec<u8> {
         let entry = match e.kind {
             0 => { let mut b = EntryBuilder::new_file(EntryName::from(e.name.as_str()), WriteOptions::store()).unwrap(); use std::io::Write; b.write_all(&e.content).unwrap(); b.build().unwrap() }
             1 => EntryBuilder::new_dir(EntryName::from(e.name.as_str())).build().unwrap(),
-            2 => EntryBuilder::new_symbolic_link(EntryName::from(e.name.as_str()), EntryReference::from(String::from_utf8_lossy(&e.content).as_ref())).unwrap().build().unwrap(),
+            2 => { let mut b = EntryBuilder::new_symbolic_link(EntryName::from(e.name.as_str()), EntryReference::from(String::from_utf8_lossy(&e.content).as_ref())).unwrap(); if let Some(m) = e.perm { b.permission(Permission::new(0, "root".into(), 0, "root".into(), m)); } b.build().unwrap() }
             _ => EntryBuilder::new_hard_link(EntryName::from(e.name.as_str()), EntryReference::from(String::from_utf8_lossy(&e.content).as_ref())).unwrap().build().unwrap(),
         };
         a.add_entry(entry).unwrap();
@@ -78,17 +78,18 @@ pub fn extract_fs(ctx: &mut Ctx) {
         let fname = |rng: &mut rand_chacha::ChaCha8Rng| ["a", "b.txt", "d/x.txt", "d/e/y", "l", "l/x.txt", "d", "h", "k/z"][rng.gen_range(0..9)].to_string();
         let k = rng.gen_range(1..6);
         let mut es: Vec<XE> = vec![];
-        let scenario = if case < 5 { case } else { rng.gen_range(0..10) }; // the first five cases are the corpus witnesses of the known findings
+        let scenario = if case < 6 { case } else { rng.gen_range(0..10) }; // the first five cases are the corpus witnesses of the known findings
         for i in 0..k {
             let e = match (scenario, i) {
-                (0, 0) => XE { name: "l".into(), kind: 2, content: format!("{root}/outside").into_bytes() },          // absolute link to outside dir
-                (0, 1) => XE { name: "l/x.txt".into(), kind: 0, content: b"pwn".to_vec() },
-                (1, 0) => XE { name: "l".into(), kind: 2, content: b"../outside".to_vec() },                           // relative escaping link
-                (1, 1) => XE { name: "l/sub/x.txt".into(), kind: 0, content: b"pwn".to_vec() },
-                (2, 0) => XE { name: "h".into(), kind: 3, content: b"../outside/secret".to_vec() },                    // escaping hard-link source
-                (3, 0) => XE { name: "h".into(), kind: 3, content: format!("{root}/outside/secret").into_bytes() },   // absolute hard-link source
-                (4, 0) => XE { name: "l".into(), kind: 2, content: format!("{root}/outside/newfile").into_bytes() },  // dangling link, then a file of the same name
-                (4, 1) => XE { name: "l".into(), kind: 0, content: b"through".to_vec() },
+                (0, 0) => XE { name: "l".into(), kind: 2, content: format!("{root}/outside").into_bytes(), perm: None },          // absolute link to outside dir
+                (0, 1) => XE { name: "l/x.txt".into(), kind: 0, content: b"pwn".to_vec(), perm: None },
+                (1, 0) => XE { name: "l".into(), kind: 2, content: b"../outside".to_vec(), perm: None },                           // relative escaping link
+                (1, 1) => XE { name: "l/sub/x.txt".into(), kind: 0, content: b"pwn".to_vec(), perm: None },
+                (2, 0) => XE { name: "h".into(), kind: 3, content: b"../outside/secret".to_vec(), perm: None },                    // escaping hard-link source
+                (3, 0) => XE { name: "h".into(), kind: 3, content: format!("{root}/outside/secret").into_bytes(), perm: None },   // absolute hard-link source
+                (4, 0) => XE { name: "l".into(), kind: 2, content: format!("{root}/outside/newfile").into_bytes(), perm: None },  // dangling link, then a file of the same name
+                (4, 1) => XE { name: "l".into(), kind: 0, content: b"through".to_vec(), perm: None },
+                (5, 0) => XE { name: "l".into(), kind: 2, content: b"../outside/secret".to_vec(), perm: Some(0o777) },  // link entry carrying a permission
                 _ => {
                     let kind = [0u8, 0, 0, 1, 2, 3][rng.gen_range(0..6)];
                     let name = match rng.gen_range(0..8) { 0 => format!("../{}", fname(&mut rng)), 1 => format!("/{}", fname(&mut rng)), _ => fname(&mut rng) };
@@ -98,7 +99,7 @@ pub fn extract_fs(ctx: &mut Ctx) {
                         2 => ["a", "d", "../out/a", "nowhere", "d/e"][rng.gen_range(0..5)].as_bytes().to_vec(),
                         _ => ["a", "b.txt", "../a", "d/x.txt"][rng.gen_range(0..4)].as_bytes().to_vec(),
                     };
-                    XE { name, kind, content }
+                    XE { name, kind, content, perm: None }
                 }
             };
             es.push(e);
@@ -123,12 +124,13 @@ pub fn extract_fs(ctx: &mut Ctx) {
         let before = snapshot(&sbx.root);
         let mut args: Vec<&str> = vec!["--quiet", "extract", "a.pna", "--out-dir", "out"];
         if overwrite { args.push("--overwrite"); }
+        if scenario == 5 { args.push("--keep-permission"); }
         let r = run_pna(&sbx, &sbx.root, &args, None, 60, &[]);
         let mut after = snapshot(&sbx.root);
         after.retain(|p, _| p != "tmp" && !p.starts_with("tmp/"));
         let mut before_m = before.clone();
         before_m.retain(|p, _| p != "tmp" && !p.starts_with("tmp/"));
-        let sanitized: Vec<XE> = es.iter().map(|e| XE { name: EntryName::from(e.name.as_str()).as_str().to_string(), kind: e.kind, content: if e.kind >= 2 { EntryReference::from(String::from_utf8_lossy(&e.content).as_ref()).as_str().as_bytes().to_vec() } else { e.content.clone() } }).collect();
+        let sanitized: Vec<XE> = es.iter().map(|e| XE { name: EntryName::from(e.name.as_str()).as_str().to_string(), kind: e.kind, content: if e.kind >= 2 { EntryReference::from(String::from_utf8_lossy(&e.content).as_ref()).as_str().as_bytes().to_vec() } else { e.content.clone() }, perm: e.perm }).collect();
         let attrs = json!({"entries": sanitized.iter().map(|e| json!({"name": e.name, "kind": e.kind, "content": String::from_utf8_lossy(&e.content)})).collect::<Vec<_>>(), "overwrite": overwrite, "scenario": scenario,
                            "preexisting": before_m.keys().filter(|p| p.starts_with("out/")).collect::<Vec<_>>()});
         ctx.oracle_eval();
@@ -136,7 +138,7 @@ pub fn extract_fs(ctx: &mut Ctx) {
         // ---- C09 oracle: nothing outside out/ is created, modified or linked
         let outside_before: BTreeMap<&String, &Node> = before_m.iter().filter(|(p, _)| !p.starts_with("out/") && *p != "out" && *p != "a.pna").collect();
         let outside_after: BTreeMap<&String, &Node> = after.iter().filter(|(p, _)| !p.starts_with("out/") && *p != "out" && *p != "a.pna").collect();
-        let strip = |m: &BTreeMap<&String, &Node>| -> Vec<(String, String)> { m.iter().map(|(p, n)| ((*p).clone(), match n { Node::File { content, nlink, .. } => format!("file:{}:{}", hexw(content), nlink), Node::Dir { .. } => "dir".into(), Node::Symlink { target } => format!("link:{target}"), Node::Other => "other".into() })).collect() };
+        let strip = |m: &BTreeMap<&String, &Node>| -> Vec<(String, String)> { m.iter().map(|(p, n)| ((*p).clone(), match n { Node::File { content, nlink, mode, .. } => format!("file:{}:{:o}:{}", hexw(content), mode, nlink), Node::Dir { .. } => "dir".into(), Node::Symlink { target } => format!("link:{target}"), Node::Other => "other".into() })).collect() };
         if strip(&outside_before) != strip(&outside_after) {
             // classify by the shape of the history (matchers of the known findings)
             let (sb, sa) = (strip(&outside_before), strip(&outside_after));
